@@ -567,6 +567,7 @@ func main() {
 			scanFile(p, f)
 		}
 	}
+	scanGlobals(pkgs)
 	for k := range funcAnchors {
 		if !anchorsSeen[k] {
 			fmt.Fprintln(os.Stderr, "anchor not found:", k)
